@@ -671,4 +671,91 @@ theorem reorderHistory_spec (idxs : List (List Nat)) (pa : PA) (hwf : pa.wf = tr
     refine ⟨?_, b, by rw [← hn1]; exact c, d⟩
     exact Perm.trans a (particles_fixed_perm idx pa hwf hp)
 
+/-! ### histories on ONE search structure: the array is edited between the re-orderings
+
+`spatiallyOrder idx pa` is a function of the array *as it is when the re-order
+runs*: `pa.props` is `pa.properties` at that moment and `pa.n` the particle
+count at that moment.  The model has no state of the NNPS object in which a
+property list or a particle count of construction time could survive, so the
+per-call theorems already speak about the current properties and the current
+count; `history_with_edits` spells that out for a whole life of the array. -/
+
+/-- one event in the life of an array a search structure was built on -/
+inductive Event where
+  /-- `spatially_order_particles` with the ordered index list of that moment -/
+  | reorder (idx : List Nat)
+  /-- anything else: `add_particles`, `remove_particles`, ghosts made by the
+  domain manager, `add_property`, `ensure_properties`, `remove_property`, motion … -/
+  | edit (f : PA → PA)
+
+def Event.apply (pa : PA) : Event → PA
+  | .reorder idx => spatiallyOrder idx pa
+  | .edit f => f pa
+
+def runEvents (pa : PA) (evs : List Event) : PA := evs.foldl Event.apply pa
+
+def PA.names (pa : PA) : List String := pa.props.map (fun c => c.name)
+
+/-- every edit leaves a well-formed array (any number of particles, any
+property set), every re-order is handed a permutation of the slots the array
+has *at that time* -/
+def Admissible : PA → List Event → Prop
+  | _, [] => True
+  | pa, .reorder idx :: r => idx ~ range pa.n ∧ Admissible (spatiallyOrder idx pa) r
+  | pa, .edit f :: r => (f pa).wf = true ∧ Admissible (f pa) r
+
+/-- what C17 demands of one re-order: same whole particles over the properties
+the array has now, same property list, same count, real particles first -/
+def ReorderGood (before after : PA) : Prop :=
+  after.particles ~ before.particles ∧ after.names = before.names ∧ after.n = before.n ∧
+    after.wf = true ∧ after.realFirst = true
+
+def EveryReorderGood : PA → List Event → Prop
+  | _, [] => True
+  | pa, .reorder idx :: r =>
+      ReorderGood pa (spatiallyOrder idx pa) ∧ EveryReorderGood (spatiallyOrder idx pa) r
+  | pa, .edit f :: r => EveryReorderGood (f pa) r
+
+theorem names_gatherAll (pa : PA) (idx : List Nat) : (pa.gatherAll idx).names = pa.names := by
+  simp [PA.names, PA.gatherAll, gatherCol, Function.comp_def]
+
+theorem names_align (pa : PA) : (align pa).names = pa.names := by
+  unfold align
+  simp only []
+  split
+  · rw [names_gatherAll]; rfl
+  · rfl
+
+theorem names_fixed (idx : List Nat) (pa : PA) : (spatiallyOrder idx pa).names = pa.names := by
+  unfold spatiallyOrder spatiallyOrderOrig
+  rw [names_align, names_gatherAll]
+
+theorem reorderGood_fixed (idx : List Nat) (pa : PA) (hwf : pa.wf = true) (hp : idx ~ range pa.n) :
+    ReorderGood pa (spatiallyOrder idx pa) :=
+  ⟨particles_fixed_perm idx pa hwf hp, names_fixed idx pa, n_fixed idx pa hwf, wf_fixed idx pa hwf,
+    realFirst_align _ (wf_orig idx pa hwf)⟩
+
+theorem everyReorderGood_of_admissible (evs : List Event) (pa : PA) (hwf : pa.wf = true)
+    (h : Admissible pa evs) : EveryReorderGood pa evs ∧ (runEvents pa evs).wf = true := by
+  induction evs generalizing pa with
+  | nil => exact ⟨trivial, hwf⟩
+  | cons ev rest ih =>
+    cases ev with
+    | reorder idx =>
+      obtain ⟨hp, hr⟩ := h
+      obtain ⟨a, b⟩ := ih (spatiallyOrder idx pa) (wf_fixed idx pa hwf) hr
+      exact ⟨⟨reorderGood_fixed idx pa hwf hp, a⟩, b⟩
+    | edit f =>
+      obtain ⟨hw, hr⟩ := h
+      exact ih (f pa) hw hr
+
+/-- the seeded shape B2: only the properties in a list remembered from
+construction time are gathered (not the code; kept for its counterexample) -/
+def spatiallyOrderCached (cached : List String) (idx : List Nat) (pa : PA) : PA :=
+  align { pa with props := pa.props.map (fun c => if cached.contains c.name then gatherCol idx c else c) }
+
+/-- `add_property(name, stride)` with a value per particle -/
+def addProp (name : String) (stride : Nat) (data : List Int) (pa : PA) : PA :=
+  { pa with props := pa.props ++ [⟨name, stride, data⟩] }
+
 end PysphVerif.Reorder
